@@ -111,7 +111,7 @@ def check_group(ctx, case, schedules=None, tag_prefix=""):
     flav = {}
 
     def mk_scripts(info):
-        f, s = CS.gen_scripts(rng, info, case.get("flavour"))
+        f, s = CS.gen_scripts(rng, info, case.get("flavour"), real=bool(case.get("real")))
         flav["f"] = f
         return s
     k = case.get("k", 5)
@@ -125,7 +125,7 @@ def check_group(ctx, case, schedules=None, tag_prefix=""):
             factory = (lambda p: (lambda sim: CS.random_chooser(rng, p, 0.0)))(p)
         try:
             res = CS.run_real(case["template"], scripts if scripts is not None else mk_scripts, factory,
-                              cont=case.get("cont", ()))
+                              cont=case.get("cont", ()), real=bool(case.get("real")))
         except Exception as exc:  # noqa
             ctx.tag(tag_prefix + "build-error:" + type(exc).__name__)
             return None
@@ -162,6 +162,12 @@ def check_group(ctx, case, schedules=None, tag_prefix=""):
     if any(c["isAgg"] and any(comps_[p]["isRepl"] and comps_[p]["stage"] < c["stage"] for p in c["preds"])
            for c in comps_):
         tags.append("has:aggregator-in-later-stage-than-replicas")
+    tags.append("engines:" + ("real" if case.get("real") else "fake"))
+    if any(":" in x for sc in scripts.values() for x in sc):
+        tags.append("script:launch-raises")
+    if any(any(CS.base_reason(x) == "SubmissionFailed" and k > 0 and CS.base_reason(sc[k - 1]) != "SubmissionFailed"
+               for k, x in enumerate(sc)) for sc in scripts.values()):
+        tags.append("script:submission-fails-after-a-restart")
     tags.append("stages=%d" % n_stages)
     if info["cont"]:
         tags.append("has:continue-on-error")
@@ -196,6 +202,9 @@ def check_group(ctx, case, schedules=None, tag_prefix=""):
                      dict(detail, component=info["comps"][i]["ref"], was=was, now=now, final=r.final))
         for what, i, at in r.launch_bad:
             ctx.fail("c01:" + what, full, {"component": info["comps"][i]["ref"], "after_ops": at})
+        if r.pool_errors:
+            ctx.compare("no exception escapes a callback run on the controller pool", full, {"errors": []},
+                        {"errors": r.pool_errors})
         failed = [i for i, st in enumerate(r.final) if st == "failed"]
         ujf = [k for k, x in enumerate(r.results) if x == "UnexpectedJobFailureError"]
         if failed:
@@ -255,7 +264,7 @@ def check_group(ctx, case, schedules=None, tag_prefix=""):
 def gen_case(rng, k):
     template, cont = CS.gen_workflow(rng)
     return {"template": template, "cont": cont, "scripts": None, "seed": rng.randrange(1 << 30),
-            "flavour": None, "k": k}
+            "flavour": None, "k": k, "real": rng.random() < 0.35}
 
 
 # first entry = minimal input of the known finding (rediscovered by the generator as well): c1 exits with a reason
